@@ -11,6 +11,7 @@ mod isolate;
 mod dom;
 mod dump;
 mod lift;
+mod desugar;
 mod tables;
 
 pub fn with_catch<F: FnOnce() -> String + panic::UnwindSafe>(f: F) -> String {
@@ -86,6 +87,13 @@ fn main() {
             for line in stdin.lock().lines() {
                 let line = line.unwrap();
                 let reply = with_catch(move || lift::handle(&line));
+                writeln!(out, "{}", reply).unwrap();
+            }
+        }
+        "desugar" => {
+            for line in stdin.lock().lines() {
+                let line = line.unwrap();
+                let reply = with_catch(move || desugar::handle(&line));
                 writeln!(out, "{}", reply).unwrap();
             }
         }
